@@ -21,7 +21,7 @@ def check(run, only=None):
         for h in hs:
             h.spec = cells.Spec("", quick=True)
             h.variant, h.tags = "Equals", ("lazy",)
-        return hs
+        return hs + cells.partialeq_cells("c03")
     arms, hs = cells.run_cells(run, "c03", only=only, extra=lazy_eq, extra_preamble=c05.PREAMBLE)
     run.assumptions += cells.COMMON_ASSUMPTIONS
     run.outside_claim += cells.OUTSIDE
